@@ -225,6 +225,27 @@ func init() {
 			}},
 		)
 	}
+	for _, kind := range intKinds {
+		for _, from := range intKinds {
+			kind, from := kind, from
+			aliasEntries = append(aliasEntries,
+				aliasEntry{kind + ".MakeFromSequence(" + from + ")/mutate-argument", func(size, pos int) (string, string, bool) {
+					arg := buildInt(from, intsN(size))
+					c := buildIntFromSeq(kind, arg)
+					before := fmt.Sprint(c.AsArray())
+					w := mutateIntColl(arg, pos)
+					return before, fmt.Sprint(c.AsArray()), w
+				}},
+				aliasEntry{kind + ".MakeFromSequence(" + from + ")/mutate-collection", func(size, pos int) (string, string, bool) {
+					arg := buildInt(from, intsN(size))
+					c := buildIntFromSeq(kind, arg)
+					before := fmt.Sprint(arg.AsArray())
+					w := mutateIntColl(c, pos)
+					return before, fmt.Sprint(arg.AsArray()), w
+				}},
+			)
+		}
+	}
 	for _, kind := range []string{"Array", "List", "Set"} {
 		kind := kind
 		aliasEntries = append(aliasEntries,
